@@ -96,7 +96,13 @@ func (g *irGenCtx) genModels() {
 				tags = append(tags, fmt.Sprintf(`json:"%s"`, rng.Pick(r, []string{"f" + fmt.Sprint(j), "f" + fmt.Sprint(j) + ",omitempty"})))
 			}
 			if r.Chance(1, 2) {
-				tags = append(tags, fmt.Sprintf(`validate:"%s"`, g.genValidator(f.Type)))
+				v := g.genValidator(f.Type)
+				if f.Type == "string" && r.Chance(1, 6) {
+					// a struct tag is raw text: an escape written in it (as a regular expression needs) is two characters,
+					// and both converters must read the same ones (field tags never reach the routes file)
+					v += rng.Pick(r, []string{`,pattern=^\\d{2}$`, `,pattern=^a\\.b$`, `,pattern=\\s+`})
+				}
+				tags = append(tags, fmt.Sprintf(`validate:"%s"`, v))
 			}
 			f.Tag = strings.Join(tags, " ")
 			if badValidators && len(f.Tag) > 0 && r.Chance(1, 12) {
